@@ -1,0 +1,28 @@
+//go:build verif
+
+// Package verifhook provides instrumentation points used only by the
+// verification harness. It is compiled in with the "verif" build tag; without
+// the tag every call is an empty function that the compiler removes.
+package verifhook
+
+import "sync/atomic"
+
+var fn atomic.Value // func(ev, path string, n int64)
+
+// Enabled reports whether hooks are compiled in.
+const Enabled = true
+
+// Set installs (or, with nil, removes) the callback invoked by At.
+func Set(f func(ev, path string, n int64)) {
+	if f == nil {
+		f = func(string, string, int64) {}
+	}
+	fn.Store(f)
+}
+
+// At reports that execution reached the instrumentation point ev.
+func At(ev, path string, n int64) {
+	if f, ok := fn.Load().(func(string, string, int64)); ok {
+		f(ev, path, n)
+	}
+}
